@@ -53,7 +53,7 @@ CHECKS = {
          "Exploration of schedules: writer/reader sessions with injected sleeps between client-boundary steps, in-process and cross-process; verdict from recorded events (interval overlap, lost updates, torn reads, porcupine on an integer-register model) and from non-blocking flock probes with GC disabled after every failure mode of Open/Create.",
          "Only schedules actually produced are covered; contention is measured and required.", "2/C13"),
  "C16": ("fault-injection product over the real binary with an exit-code / effect oracle",
-         "Fault enumeration at the process boundary (thorough tier = the whole product, quick tier = every (subcommand, fault) and (subcommand, archive selection) pair): subcommand x archive selection x window x environment fault (unopenable/unwritable/full text-out, missing/garbage/truncated source, read-only or impossible destination, layout mismatch, missing destination) x text-out mode; no panic text, exit code in {0,1,2}, success only with observable work, every fault reported.",
+         "Fault enumeration at the process boundary (thorough tier = the whole product, quick tier = every (subcommand, fault) and (subcommand, archive selection) pair): subcommand x archive selection x window x environment fault (unopenable/unwritable/full text-out, missing/garbage/truncated source, read-only or impossible destination, layout mismatch, missing destination) x text-out mode; no panic text, no abnormal termination, success only with observable work, every fault reported by a non-zero exit.",
          "Runs as root and drops the child to uid 65534 for permission faults.", "2/C16"),
  "C17": ("Go race detector in harness, CLI and server processes + concurrent-vs-sequential result equality",
          "Exploration of schedules under the race detector: many goroutines on one cold handle, the sum read path with forced out-of-order completion, the -race server under 8-64 parallel clients over all endpoints; every concurrent result compared bit-exactly with the same request executed alone; every race report is a violation.",
